@@ -152,7 +152,7 @@ def restart(props, n=60):
         i = 0
         try:
             while compared < n and i < 4000:
-                run = mod.generate(R.rng_for(777, prop, i), cfg)
+                run = mod.generate(R.rng_for(777, prop, i), dict(cfg, _index=i))
                 i += 1
                 tr = run["trace"]
                 cut = [k for k, st in enumerate(tr) if st[1] == "soft_restart"]
